@@ -684,6 +684,9 @@ PROPS["C18"] = dict(
 PROPS["C15"] = dict(
     variant="asan",
     sources=ENGINE + ["props/c15_text.c"],
+    # known finding C02-const-two-lane-sizes: a constant written once as a variable and once as an inline literal is one shared
+    # variable in the API twin and two variables in the parsed program, which makes that defect visible here; kept out by construction
+    excludes=["const-two-lane-sizes"],
     level="exploration",
     technique="round-trip / differential property-based testing (rapidcheck): generated programs are built through the API and, independently, printed as .orc text with randomised formatting and literal spellings, parsed, and compared structurally and by emulation",
     level_text=("generated files of 1..3 functions (full opcode set, all directive kinds) printed with random spacing, tabs, comments, blank "
